@@ -182,7 +182,11 @@ def gen_c03(plan, tier, rng):
     for d in decls:
         d.derive = ["Debug", "FromStr"] + (["TryFrom"] if d.has_validation() else ["From"])
         body = ""
-        for i, sk in enumerate(skeletons_for(d, tier, rng)[:3 if tier == "quick" else 99]):
+        sks = skeletons_for(d, tier, rng)
+        if tier == "quick":
+            # + a titlecase letter (U+01C5: neither is_uppercase nor is_lowercase, changed by both case mappings) where case matters
+            sks = sks[:3] + (["\u01c5X"] if ("lowercase" in d.sanitizers or "uppercase" in d.sanitizers) else [])
+        for i, sk in enumerate(sks):
             for conv in c03_conversions(d):
                 hn = "c03_str_%s_%s_%s" % (d.modname(), sk_tag(i), conv[0])
                 body += c03_harness(d, sk, hn, conv)
@@ -449,7 +453,7 @@ mod strmodel_native_validation {
     #[test]
     fn vp_strmodel_matches_std() {
         let ws = [' ', '\t', '\n', '\u{a0}', '\u{2003}', '\u{85}', '\u{3000}'];
-        let other = ['_', '\u{e9}', '\u{c9}', '\u{df}', 'a', 'A', 'z', 'Z', '0', '~', '!'];
+        let other = ['_', '\u{e9}', '\u{c9}', '\u{df}', '\u{1c4}', '\u{1c5}', '\u{1c6}', 'a', 'A', 'z', 'Z', '0', '~', '!'];
         let mut alphabet: Vec<char> = Vec::new();
         alphabet.extend_from_slice(&ws); alphabet.extend_from_slice(&other);
         for b in 0x21u8..0x7f { alphabet.push(b as char); }
@@ -574,6 +578,12 @@ def gen_c09(plan, tier, rng):
         (StrDecl(["trim"], ["min", "max"], literal={"min": 2, "max": 2}, modname="c09s_trim2"), 2, ["XY", " XY", "X Y", "X ", " X Y", "  XY"]),
         (StrDecl(["trim", "lowercase"], ["min", "max"], literal={"min": 1, "max": 1}, modname="c09s_trim_lower1"), 1, ["X", " X", "\tX"]),
         (StrDecl([], ["not_empty", "max"], literal={"max": 1}, modname="c09s_ne1"), 1, ["X", " ", ""]),
+        # `not_empty` combined with `len_char_min`, in both orders: the lower length is the LARGER of the two (was a defect: the first
+        # one written won - known_findings.json `C09-string-not-empty-shadows-len-char-min`, fixed). min == max, so the generated
+        # int_in_range consumes no selector byte; a generator that picks the smaller minimum consumes one and yields another text.
+        (StrDecl([], ["not_empty", "min", "max"], literal={"min": 2, "max": 2}, modname="c09s_ne_min2"), 2, ["XY", "X"]),
+        (StrDecl([], ["min", "not_empty", "max"], literal={"min": 0, "max": 1}, modname="c09s_min0_ne"), 1, ["X", ""]),
+        (StrDecl(["trim"], ["min", "not_empty", "max"], literal={"min": 2, "max": 2}, modname="c09s_trim_min2_ne"), 2, ["XY", " XY"]),
     ]
     if tier == "quick":
         decls = [(d, t, sks[:4]) for (d, t, sks) in decls]
@@ -588,17 +598,4 @@ def gen_c09(plan, tier, rng):
             body += h[0]
             plan.add(H(hn, "best_effort" if h[1] else "main", dict(d.describe(), target_len=tlen, stream="4-byte words encoding " + skeleton_repr(sk) + " (fillers symbolic ASCII), then exhausted")))
         src.append(module(d, body))
-    # `not_empty` written before a larger `len_char_min`: the generator takes the FIRST minimum (1), so target_len ranges over 1..=2
-    # and a selector byte of 0 picks the too-short length (known finding, see known_findings.json)
-    d = StrDecl([], ["not_empty", "min", "max"], literal={"min": 2, "max": 2}, derive=["Debug", "Arbitrary"], modname="c09s_ne_shadows_min")
-    body = ""
-    for sel, tlen, sk, tag in ((0, 1, "X", "short"), (1, 2, "XY", "full")):
-        hn = "c09_str_c09s_ne_shadows_min_%s" % tag
-        h = c09_harness(d, tlen, sk, hn, selector=sel)
-        body += h[0]
-        if tag == "short":
-            plan.add(H(hn + "", "finding", dict(d.describe(), target_len=tlen, selector_byte=sel), finding="C09-string-not-empty-shadows-len-char-min"))
-        else:
-            plan.add(H(hn, "main", dict(d.describe(), target_len=tlen, selector_byte=sel)))
-    src.append(module(d, body))
     return "\n".join(src)
